@@ -39,6 +39,7 @@ structure Facts where
   copy : CopyFacts
   tbl : List (List (Nat × Nat))
   maxSel : Nat
+  fwdCloses : Bool   -- a forwarding goroutine closes its source reader when it exits
 
 /-- state of a forwarding goroutine + its stream, seen from the merged reader -/
 inductive FwdSt where
@@ -147,9 +148,12 @@ def recvAll (F : Facts) : Nat → Net → Nat → List (Res × Net)
               match outs.find? (fun o => o.1.isEof) with
               | some o =>
                 -- the forwarder sees io.EOF: closeSend on its stream, Close on its source
-                match closeAll F fuel (o.2.setNode sid (.fpipe src .ended)) src with
-                | some n' => some (sb, .closed n')
-                | none => none
+                let n1 := o.2.setNode sid (.fpipe src .ended)
+                if F.fwdCloses then
+                  match closeAll F fuel n1 src with
+                  | some n' => some (sb, .closed n')
+                  | none => none
+                else some (sb, .closed n1)
               | none =>
                 if outs.isEmpty then some (sb, .blocked)
                 else some (sb, .items (outs.filterMap fun o => o.1.item?.map (·, o.2)))
@@ -203,7 +207,9 @@ def pendings (net : Net) : List Nat :=
 /-- forwarder `f` notices that its stream was closed: it closes its source. -/
 def resolveOne (F : Facts) (fuel : Nat) (net : Net) (f : Nat) : Option Net :=
   match net.nodes[f]? with
-  | some (.fpipe src .pending) => closeAll F fuel (net.setNode f (.fpipe src .stopped)) src
+  | some (.fpipe src .pending) =>
+    let n1 := net.setNode f (.fpipe src .stopped)
+    if F.fwdCloses then closeAll F fuel n1 src else some n1
   | _ => some net
 
 def resolveRound (F : Facts) (fuel : Nat) (net : Net) : Option Net :=
@@ -275,16 +281,17 @@ def sendCode (F : Facts) (fuel : Nat) (net : Net) (p : Nat) : Nat :=
     | none => 0
 
 /-- If every forwarder that still has to notice a close did so, would the reading side of
-    `p` be closed?  Then repeated `Send`s must report it after at most `cap + rounds`
-    accepted items (each forwarder on the way needs one item to notice); `some 0` = it is
-    closed already. -/
+    `p` be closed?  Then repeated `Send`s must report it after at most `cap + 6 * rounds`
+    accepted items (each forwarder on the way needs one item to notice, and one that has not
+    been told yet can take 5 items into its stream and hold a sixth); `some 0` = it is closed
+    already. -/
 def drainBound (F : Facts) (fuel : Nat) (net : Net) (p : Nat) : Option Nat :=
   match getPipe net p with
   | none => none
   | some x =>
     match roundsToClose F fuel (net.nodes.size + 2) net p 0 with
     | some 0 => some 0
-    | some k => some (x.cap + k)
+    | some k => some (x.cap + 6 * k)
     | none => none
 
 /-! ### operations of the case language -/
